@@ -535,6 +535,9 @@ impl Database {
 
         drop(file_manager_guard);
 
+        // header counter as last written by this statement (see below)
+        let mut auto_increment_persisted = auto_increment_current;
+
         for mut values in rows_to_insert.into_iter() {
             buffers.reset();
 
@@ -562,6 +565,18 @@ impl Database {
                         auto_increment_current = *provided_val as u64;
                     }
                 }
+            }
+
+            if auto_increment_col_idx.is_some() && auto_increment_max > auto_increment_persisted {
+                // the row may still fail below and earlier rows of this statement stay in the
+                // table: ids that were handed out must never be handed out again
+                let mut storage = main_storage_arc.write();
+                let page = storage.page_mut(0)?;
+                let header = TableFileHeader::from_bytes_mut(page)?;
+                if auto_increment_max > header.auto_increment() {
+                    header.set_auto_increment(auto_increment_max);
+                }
+                auto_increment_persisted = auto_increment_max;
             }
 
             validator.validate_insert(&mut values)?;
